@@ -66,7 +66,7 @@ def run(ctx):
                          ("PipeConn_dev_nowrap.cfg", "OwnReply")])
 
     # ---- leg B
-    nsim = 2000 if T else 250
+    nsim = 1000 if T else 250
     b1 = vlib.tlc_behaviours(ctx, "PipeConn", "PipeConn_gen.cfg", simulate=nsim, depth=250,
                              cfg_text=pc.gen_cfg(MaxCalls="2", MaxFault="0", MaxDup="2", MaxStray="2"),
                              label="generator: 2 callers x 2 calls, reorder / duplicates / strays / cancel (late replies)")
